@@ -416,3 +416,17 @@ func ReachesWithoutFatal(from, target *ssa.BasicBlock) bool {
 	}
 	return walk(from)
 }
+
+// InLoopBody: block b lies on a cycle (alias of InLoop, kept for readability at call sites).
+func InLoopBody(b *ssa.BasicBlock) bool {
+	// a block that returns is never on a cycle; test whether it is reachable from a block that is
+	if InLoop(b) {
+		return true
+	}
+	for _, p := range b.Preds {
+		if InLoop(p) {
+			return true
+		}
+	}
+	return false
+}
